@@ -177,6 +177,21 @@ func (c *Ctx) ReusedInput(site string, in []byte, run func([]byte) string, desc 
 	}
 }
 
+// Cuts returns a few strict prefixes lengths of an n-byte encoding (n-1, n/2, 1, 0 without repeats): inputs that announce the
+// same lengths as the full encoding but end early. A decoder is fed these -- which it must reject or survive -- immediately
+// before the full encoding on the SAME receiver: whatever a failed call leaves behind must not change the next, valid call.
+func Cuts(n int) []int {
+	var out []int
+	seen := map[int]bool{}
+	for _, k := range []int{n - 1, n / 2, 1, 0} {
+		if k >= 0 && k < n && !seen[k] {
+			seen[k] = true
+			out = append(out, k)
+		}
+	}
+	return out
+}
+
 // Guarded returns a copy of b that is a sub-slice of a larger array: the 8 bytes behind it (inside its capacity) hold a
 // sentinel, as when a caller cuts adjacent views out of one blob. GuardIntact tells whether the sentinel is still there: code
 // that appends to its argument in place writes into its caller's neighbouring data.
